@@ -375,6 +375,11 @@ func tail(s string, n int) string {
 
 // runHistories executes n histories in parallel and writes them into nfiles cases files.
 func runHistories(rc *runCtx, profile string, n int, cfgs []int, nfiles int, imports []string, caseType string, prefix string) error {
+	return runHistoriesX(rc, profile, n, cfgs, false, nfiles, imports, caseType, prefix)
+}
+
+// runHistoriesX: with cross = true every history index is executed under EVERY configuration of cfgs.
+func runHistoriesX(rc *runCtx, profile string, n int, cfgs []int, cross bool, nfiles int, imports []string, caseType string, prefix string) error {
 	scratch, err := os.MkdirTemp("", "verif-hist-")
 	if err != nil {
 		return err
@@ -399,11 +404,22 @@ func runHistories(rc *runCtx, profile string, n int, cfgs []int, nfiles int, imp
 		}()
 	}
 	for i := 0; i < n; i++ {
-		jobs <- job{i, cfgs[i%len(cfgs)]}
+		if cross {
+			for _, c := range cfgs {
+				jobs <- job{i, c}
+			}
+		} else {
+			jobs <- job{i, cfgs[i%len(cfgs)]}
+		}
 	}
 	close(jobs)
 	wg.Wait()
-	sort.Slice(results, func(i, j int) bool { return results[i].idx < results[j].idx })
+	sort.Slice(results, func(i, j int) bool {
+		if results[i].idx != results[j].idx {
+			return results[i].idx < results[j].idx
+		}
+		return results[i].cfg < results[j].cfg
+	})
 	files := make([]*caseFile, nfiles)
 	for k := range files {
 		cf, err := newCaseFile(filepath.Join(rc.outDir, fmt.Sprintf("cases_%s_%02d.v", prefix, k)), imports, caseType)
@@ -432,7 +448,7 @@ func runHistories(rc *runCtx, profile string, n int, cfgs []int, nfiles int, imp
 			hist[kd]++
 		}
 		hist[fmt.Sprintf("cfg%d", hr.cfg)]++
-		distinct[hr.sig+fmt.Sprint(hr.idx)] = struct{}{}
+		distinct[hr.sig+fmt.Sprint(hr.idx, hr.cfg)] = struct{}{}
 		if hr.crashed {
 			crashed++
 			if len(crashTexts) < 3 {
